@@ -54,6 +54,9 @@ def build(variant, salt, tcp=False):
     inv, sim = siminv.build_direct(cfg, default=default)
     if cfg["family"] == "ES" and salt:
         sim.regs = _Regs(default)
+    if cfg["tcp"] and salt % 3 == 1:
+        # Modbus/TCP answers with bytes after the announced payload (accepted by the library as valid answers)
+        inv._verif_responder.trailing = bytes((mix(salt, 1) & 0xFF, mix(salt, 2) & 0xFF))
     run_sync(inv.read_device_info())
     for sid_, st_ in inv._settings.items():     # first sighting of every definition of this variant in this process (see check_write)
         DEF_SEEN.setdefault((variant, sid_), (rs.type_name(st_), st_.offset, st_.size_))
